@@ -100,6 +100,7 @@ theorem spec_fullCrcHi (n : Nat) : Cfg.spec.fullCrcHi n = (n : Int) - 4 := rfl
 theorem spec_fullCopyLo (n : Nat) : Cfg.spec.fullCopyLo n = 8 := rfl
 theorem spec_fullCopyHi (n : Nat) : Cfg.spec.fullCopyHi n = (n : Int) - 4 := rfl
 theorem spec_fullWire (l : Nat) : Cfg.spec.fullWire l = l + 12 := rfl
+theorem spec_fullSeqAfterCheck : Cfg.spec.fullSeqAfterCheck = true := rfl
 theorem spec_padEnvelope : Cfg.spec.padEnvelope = 3 := rfl
 theorem spec_padOf (b : Nat) : Cfg.spec.padOf b = b % 4 := rfl
 theorem spec_padStrip (n : Nat) : Cfg.spec.padStrip n = n % 4 := rfl
